@@ -946,7 +946,7 @@ def r02_3_admission(ctx, rid='R02.3'):
         r.check(not breaks_of(lo, f.node), 'every constructor parameter is considered', f.key('attribute-loop-break'),
                 f.loc(lo), 'the attribute loop can be left early: later parameters are not checked')
         inner = [n for n in lo.body if isinstance(n, ast.For)]
-        want = "[%s, %s.replace('_', '-')]" % (an, an)
+        want = "(%s, %s.replace('_', '-'))" % (an, an)
         alt_ok = [n for n in inner if norm(n.iter) == want]
         r.check(bool(alt_ok), 'alternatives tried: %s' % want, f.key('alternatives'), f.loc(lo),
                 'the key alternatives tried for a parameter are %s, expected %s (exact name, then dashes)'
